@@ -158,6 +158,28 @@ def probe : List String → String
     | none => "bad-op"
   | _ => "bad-op"
 
+def setting? : String → Option Setting
+  | "stackLimit" => some .stackLimit | "traceLimit" => some .traceLimit | "random" => some .random
+  | "debugger" => some .debugger | "interrupt" => some .interrupt | _ => none
+
+def carriedOut (b : Bool) : String := if b then "carried" else "notcarried"
+
+/-- `H <setting> <depth>`: depth 0 is the template itself (every setting is in force there) -/
+def handleH (s : Setting) (depth : Nat) : String :=
+  let m := if depth = 0 then true else carried s
+  let sp := if depth = 0 then true else (Spec.carried s).getD m
+  reply (carriedOut m) (carriedOut sp) "-"
+
+/-- `B <probe> <depth>`: a reflection-bridged Go function registered before Copy() and called on the
+    depth-th copy.  The wrapper (runtime.go:708) closes over the runtime `toValue` was called on and
+    converts the Go results with THAT runtime: on a copy the result's prototype is the template's
+    Array.prototype / Object.prototype (realm checks false), and a write through it lands in the
+    template (`leak`: the template then sees `[].c17leak === 1`). -/
+def handleB (probe : String) (depth : Nat) : String :=
+  let ok := if probe = "leak" then "undefined" else "true"
+  let bad := if probe = "leak" then "1" else "false"
+  if depth = 0 then reply ok ok "-" else reply bad ok "bridged_func_realm"
+
 def handle (ws : List String) : String :=
   match ws with
   | "S" :: depth :: _src :: cfg :: rootsTok :: nodeToks =>
@@ -170,6 +192,12 @@ def handle (ws : List String) : String :=
       reply e e "-"
     else "bad-op"
   | "P" :: rest => probe rest
+  | ["H", k, d] => match setting? k, d.toNat? with
+    | some s, some d => handleH s d
+    | _, _ => "bad-op"
+  | ["B", k, d] => match d.toNat? with
+    | some d => if ["slice", "sliceproto", "map", "multi", "leak"].contains k then handleB k d else "bad-op"
+    | none => "bad-op"
   | _ => "bad-op"
 
 end OttoVerif.C17.Driver
